@@ -432,7 +432,9 @@ def c01_cases(tier, seed):
 PROPS["C01"] = {
     "theorems": ["C01_tag_known", "C01_tag_fragment", "C01_tag_pattern", "C01_tag_unresolved", "C01_tag_bound", "C01_tag_member", "C01_tag_member_shape",
                  "C01_valueless_true", "C01_string_value_cleaned", "C01_expr_value", "C01_spread_plain", "C01_spread_merge",
-                 "C01_no_attrs", "C01_assemble_merge", "C01_tag_member_hyphen", "C01_tag_member_quiet", "C01_tag_member_object_reported"],
+                 "C01_no_attrs", "C01_assemble_merge", "C01_tag_member_hyphen", "C01_tag_member_quiet", "C01_tag_member_object_reported",
+                 "C01_plain_attrs_exactly_written", "attrStep_plain_kv"],
+    "extra_modules": ["VueJsx.Props.C01b"],
     "cases": c01_cases,
     "post": literal_roundtrip_post,
     "explanation": "oracle: for every JSX element of the input, the vnode type and the props normal form (Sem.normOps: Vue mergeProps / plain last-wins semantics, class/style/listener concatenation) DENOTED by the written attributes equal those EVALUATED from the real output's createVNode arguments (mergeProps calls, deduplicated literals, _transformOn layers); elements with v-model are judged by C05",
